@@ -151,7 +151,8 @@ let run mode line =
   match mode with
   | "parse" -> outcome (parse_src (bytes_of_atom line))
   (* rt: line = (indent (stmt ...)) in the s-expression format of gen/programs.py (stmt_sexp) ->
-     "<prog_ok> <raw_tpl> <T1> <T2> <T3> <frag_prog>" with
+     "<prog_ok> <raw_tpl> <T1> <T2> <T3> <frag_prog> <lex_ok_prog> <T4>" with
+       T4  pp_stmts_raw ind (pnorm p) = pp_stmts ind p
        T1  parse (ptoks p ++ [END]) = Parsed (pnorm p)
        T2  map strip (lex (pp_stmts ind p)) = ptoks p ++ [END]
        T3  parse_src (pp_stmts ind p) = Parsed (pnorm p) *)
@@ -167,7 +168,7 @@ let run mode line =
        let txt = pp_stmts ind p in
        let t2 = (match lex txt with Some l -> List.map strip_tok l = tk | None -> false) in
        let t3 = (match parse_src txt with Parsed q -> q = np | _ -> false) in
-       String.concat " " [bit (prog_ok ind p); bit (raw_tpl_prog p); bit t1; bit t2; bit t3; bit (frag_prog p)]
+       String.concat " " [bit (prog_ok ind p); bit (raw_tpl_prog p); bit t1; bit t2; bit t3; bit (frag_prog p); bit (lex_ok_prog p); bit (pp_stmts_raw ind np = txt)]
      | _ -> failwith "rt input")
   | _ -> failwith "mode"
 
